@@ -328,6 +328,51 @@ def statementEq (a b : Statement) : Bool :=
   ((a.ctes.zip b.ctes).all fun (x, y) => x.1 == y.1 && selectEq (normSel x.2) (normSel y.2)) &&
   selectEq (normSel a.body) (normSel b.body)
 
+/-! ### K4: pass-through function names that are SQL operator words -/
+
+def sqlOperatorWords : List String := ["NOT", "AND", "OR", "IN", "IS", "CASE", "WHEN", "THEN", "ELSE", "END", "AS"]
+
+def isKeywordFn (fn : Ident) : Bool :=
+  (Pql.knownFunction fn.name).isNone && sqlOperatorWords.contains (Sql.upper fn.name)
+
+mutual
+def exprHasKeywordFn : Expr → Bool
+  | .call fn _ args _ => isKeywordFn fn || listHasKeywordFn args
+  | .unary _ _ x | .paren _ x _ => exprHasKeywordFn x
+  | .binary x _ _ y | .index x _ y _ => exprHasKeywordFn x || exprHasKeywordFn y
+  | .inE x _ _ vs _ => exprHasKeywordFn x || listHasKeywordFn vs
+  | _ => false
+def listHasKeywordFn : ExprList → Bool
+  | .nil => false
+  | .cons e es => exprHasKeywordFn e || listHasKeywordFn es
+end
+
+def columnHasKeywordFn (c : Column) : Bool := exprHasKeywordFn c.x
+
+mutual
+def tabularHasKeywordFn : Tabular → Bool
+  | .nil => false
+  | .mk _ ops => opsHaveKeywordFn ops
+def opsHaveKeywordFn : OpList → Bool
+  | .nil => false
+  | .cons o os => opHasKeywordFn o || opsHaveKeywordFn os
+def opHasKeywordFn : Op → Bool
+  | .where_ _ _ e | .take _ _ e => exprHasKeywordFn e
+  | .sort _ _ ts => ts.any fun t => exprHasKeywordFn t.x
+  | .top _ _ n _ c => exprHasKeywordFn n || (match c with | some t => exprHasKeywordFn t.x | none => false)
+  | .project _ _ cs | .extend _ _ cs => cs.any columnHasKeywordFn
+  | .summarize _ _ cs _ gs => cs.any columnHasKeywordFn || gs.any columnHasKeywordFn
+  | .join _ _ _ _ _ _ right _ _ conds => tabularHasKeywordFn right || listHasKeywordFn conds
+  | _ => false
+end
+
+/-- the program calls a pass-through function whose name SQL reads as an operator word
+    (e.g. `Not(a)`, `Case(x)`): the name is emitted verbatim, so SQL regroups or rejects it -/
+def stmtsHaveKeywordFn (stmts : List Stmt) : Bool :=
+  stmts.any fun
+    | .tabular t => tabularHasKeywordFn t
+    | .let_ _ _ _ x => exprHasKeywordFn x
+
 /-! ### the oracle -/
 
 def onlyWhere : List Stmt → Option Expr
@@ -392,7 +437,9 @@ def clauses (src : Bytes) (params : List (Bytes × Bytes)) (impl : String) : Lis
               | .error _ => []
             | none => []
           | none => []
-        c13 ++ c05 ++ c04 ++ c01 ++ c06
+        -- K4: readings broken by an operator-word function name are reported under one clause
+        if stmtsHaveKeywordFn parsed.1 && !(c05 ++ c01 ++ c06).isEmpty then c13 ++ c04 ++ ["c01-keyword-function-name"]
+        else c13 ++ c05 ++ c04 ++ c01 ++ c06
     else ["unreadable-result"]
 
 /-- clauses for two compilations of programs that differ only in the contents of literals and
